@@ -137,12 +137,12 @@ def plan_c12(tier):
     )
 
 
-HMC_ROOTS = ["0,0", "1,4", "2,4", "2,1", "3,4", "3,1", "4,4", "5,4", "6,4", "7,0", "8,0", "9,4", "9,1", "10,4", "10,1", "11,4", "12,4", "13,4", "14,4", "15,126", "15,64", "16,127", "17,4", "18,4", "11,1024", "19,4", "20,4", "21,4", "22,1024", "23,4", "24,4", "25,4"]
-ROOT_WEIGHT = {"25,4": 26, "24,4": 4, "23,4": 24, "22,1024": 20, "20,4": 4, "21,4": 4, "19,4": 28, "11,1024": 30, "14,4": 28, "15,126": 25, "15,64": 25, "9,4": 24, "18,4": 22, "12,4": 18, "11,4": 17, "10,4": 17, "9,1": 14, "10,1": 12, "8,0": 8, "17,4": 8, "16,127": 8, "3,4": 7, "2,4": 5, "4,4": 5, "6,4": 5, "5,4": 4, "13,4": 1, "0,0": 1, "1,4": 2, "7,0": 3, "2,1": 3, "3,1": 4}
-QUICK_SHALLOW = {"25,4": 3, "20,4": 3, "21,4": 3, "22,1024": 3, "23,4": 3, "19,4": 3, "11,1024": 3, "4,4": 3, "6,4": 3, "11,4": 3, "12,4": 3, "15,64": 3}
+HMC_ROOTS = ["0,0", "1,4", "2,4", "2,1", "3,4", "3,1", "4,4", "5,4", "6,4", "7,0", "8,0", "9,4", "9,1", "10,4", "10,1", "11,4", "12,4", "13,4", "14,4", "15,126", "15,64", "16,127", "17,4", "18,4", "11,1024", "19,4", "20,4", "21,4", "22,1024", "23,4", "24,4", "25,4", "26,4", "27,4", "28,4", "29,4"]
+ROOT_WEIGHT = {"26,4": 1, "27,4": 1, "28,4": 1, "29,4": 1, "25,4": 26, "24,4": 4, "23,4": 24, "22,1024": 20, "20,4": 4, "21,4": 4, "19,4": 28, "11,1024": 30, "14,4": 28, "15,126": 25, "15,64": 25, "9,4": 24, "18,4": 22, "12,4": 18, "11,4": 17, "10,4": 17, "9,1": 14, "10,1": 12, "8,0": 8, "17,4": 8, "16,127": 8, "3,4": 7, "2,4": 5, "4,4": 5, "6,4": 5, "5,4": 4, "13,4": 1, "0,0": 1, "1,4": 2, "7,0": 3, "2,1": 3, "3,1": 4}
+QUICK_SHALLOW = {"26,4": 2, "27,4": 2, "28,4": 2, "29,4": 2, "25,4": 3, "20,4": 3, "21,4": 3, "22,1024": 3, "23,4": 3, "19,4": 3, "11,1024": 3, "4,4": 3, "6,4": 3, "11,4": 3, "12,4": 3, "15,64": 3}
 HMC_RULE = ("explicit-state search by replay over the real crate under the oracle allocator: states = canonical keys of the concrete handle pool (representation, offsets, lengths, capacities, "
             "reference counts, control blocks, allocation sizes, lineage; modulo address renaming and slot permutation), transitions = every enabled operation of the alphabet with every boundary argument "
-            "(0,1,len-1,len,cap-1,cap,alloc-len, +1 variants, usize::MAX / isize::MAX class) on every live handle, from each of 32 roots (all representations, payload 0/1/4; uniquely held shared handles with a front offset; capacity-128, capacity-1024 and capacity-32768 buffers where size-relative policies and the original-capacity classes are active; a 1024-byte Vec-backed Bytes; owners that are plain Vecs, answer as_ref() differently per call or panic in their destructor; a full shared-form BytesMut), "
+            "(0,1,len-1,len,cap-1,cap,alloc-len, +1 variants, usize::MAX / isize::MAX class) on every live handle, from each of 36 roots (all representations, payload 0/1/4; uniquely held shared handles with a front offset; capacity-128, capacity-1024 and capacity-32768 buffers where size-relative policies and the original-capacity classes are active; a 1024-byte Vec-backed Bytes; owners that are plain Vecs, answer as_ref() differently per call or panic in their destructor; a full shared-form BytesMut; the remaining constructors From<String>, FromIterator<u8> for Bytes, From<&str>, FromIterator<&u8> at depth 2), "
             "<= 3 handles, second root allowed; after every transition all oracles run and a drop-all epilogue checks the ledger. distinct_nontrivial = transitions that changed the canonical state")
 
 
@@ -163,11 +163,18 @@ def plan_hmc(prop, flags_quick, flags_thorough_in, oracle_text, profiles_quick=(
         flags_thorough = list(flags_thorough_in)
         if tier == "thorough":
             flags_thorough = flags_thorough + ["--rare-last"]
-            ws = hmc_workers(prop, 5, ["rel", "dbg"] if both_profiles_thorough else ["rel"], ["even", "odd"], flags_thorough)
-            for alph, d in (("bytes", 7), ("bytesmut", 7), ("conv", 8)):
+            # measured (2026-09-28, this host): depth 5 with the full alphabet is 1.2 M states / 100 s for a light root and
+            # 15 M states / 20 min for a heavy one; the BytesMut-structure alphabet is 12.5 M states / 7 min at depth 6 and does
+            # not finish at depth 7 (> 100 M states). Every worker carries a state cap that is reported if it is ever hit.
+            flags_thorough = flags_thorough + ["--max-states", "40000000"]
+            # (the roots with 1 KiB / 32 KiB buffers pay for filling and poisoning every allocation: one level less)
+            ws = hmc_workers(prop, 5, ["rel"], ["even", "odd"], flags_thorough, extra_depth={"23,4": 4, "22,1024": 4, "11,1024": 4, "26,4": 3, "27,4": 3, "28,4": 3, "29,4": 3})
+            if both_profiles_thorough:
+                ws += hmc_workers(prop, 4, ["dbg"], ["even", "odd"], flags_thorough)
+            for alph, d in (("bytes", 7), ("bytesmut", 6), ("conv", 8)):
                 ws += hmc_workers(prop, d, ["rel"], ["even", "odd"], flags_thorough + ["--no-ooc", "--no-huge"], roots=["2,4", "3,4", "5,4", "9,4", "10,4"], alphabet=alph)
             # third allocator configuration: byte buffers carved back to back out of one arena (real address adjacency of unrelated buffers)
-            ws += hmc_workers(prop, 5, ["rel"], ["adjacent"], flags_thorough)
+            ws += hmc_workers(prop, 4, ["rel"], ["adjacent"], flags_thorough, extra_depth={"2,4": 5, "8,0": 5, "10,1": 5, "3,1": 5, "2,1": 5})
         else:
             # roots whose representation coincides with another root's after construction are explored one level less
             ws = hmc_workers(prop, 4, ["rel"], ["even", "odd"], flags_quick, extra_depth=QUICK_SHALLOW)
@@ -209,7 +216,7 @@ def plan_hmc(prop, flags_quick, flags_thorough_in, oracle_text, profiles_quick=(
                 return r, e
         return dict(workers=ws, extra=extra, level="model_checking", distinct_is_max=False, rule=HMC_RULE + "; oracle of this check: " + oracle_text + (
                     "; additionally the loom program family of C05 (concurrent histories) is run and its violations of this property are reported here" if with_loom else ""),
-                    bounds="quick: depth 4 (root + 4 operations), full alphabet incl. out-of-contract arguments (the rarely used entry points - write_char, the UninitSlice API, iterator adaptors, tuple-bound slices, exact-looking lying size hints, zero-fill resize, a second chunk_mut before the commit - as the first or second operation, the states they reach explored to the full depth), both parities, release profile (5 roots whose representation coincides with another root one level less; + 6 roots in the adjacent-arena allocator configuration; checks that name profiles add the debug-assertions build at depth 3 and at depth 4 for the offset-carrying BytesMut roots); thorough: depth 5 in rel+dbg x even+odd plus focused alphabets (Bytes-only, BytesMut structure, conversions) to depth 7-8",
+                    bounds="quick: depth 4 (root + 4 operations), full alphabet incl. out-of-contract arguments (the rarely used entry points - write_char, the UninitSlice API, iterator adaptors, tuple-bound slices, exact-looking lying size hints, zero-fill resize, a second chunk_mut before the commit - as the first or second operation, the states they reach explored to the full depth), both parities, release profile (5 roots whose representation coincides with another root one level less; + 6 roots in the adjacent-arena allocator configuration; checks that name profiles add the debug-assertions build at depth 3 and at depth 4 for the offset-carrying BytesMut roots); thorough: depth 5 in the release profile x even+odd (rare entry points at every level), depth 4 in the debug-assertions profile, focused alphabets (Bytes-only depth 7, BytesMut structure depth 6, conversions depth 8), the adjacent-arena configuration at depth 4 (5 for the light roots); every worker with a reported cap of 40 M states",
                     assumptions=["buffers <= 6 bytes; arguments are the listed boundary values", "data independence: byte values are not part of the state key (they are compared with the model on every execution)",
                                  "the hook descriptors are used only for the state key, never as an oracle"])
     return plan
